@@ -39,7 +39,7 @@ func startHist(r *Rand, c *Cfg, h *Hist) int {
 	case 3:
 		return h.Parse(c, r.Pick(basePool))
 	default:
-		return h.Parse(c, genInput(r))
+		return h.Parse(c, genInputFor(r, c))
 	}
 }
 
